@@ -1,8 +1,9 @@
 """C02 - every engine conserves every conservation law of the network (all three engines, grid and graph)."""
+import math
 import random
 from fractions import Fraction as Fr
 
-from . import core, si, sysgen, trajgen, engine_build
+from . import core, si, sysgen, trajgen, engine_build, child
 from .core import g_float, g_list, g_z, g_bool
 
 IMPORTS = "Units Grid System Engine EngineBuild AcceptC06 AcceptC05 AcceptC01 AcceptC02"
@@ -30,10 +31,13 @@ def observe(c):
 
 def emit(c, o):
     desc = c["desc"]
-    gc = "{| c2_sys := %s; c2_ue := %s; c2_chs := %s; c2_laws := %s; c2_exact := %s |}" % (
+    gc = "{| c2_sys := %s; c2_ue := %s; c2_chs := %s; c2_laws := %s; c2_exact := %s; c2_du := %s |}" % (
         sysgen.g_system(desc), si.g_usys(trajgen.engine_units(c)), g_list([g_bool(b) for b in c["chs"]]),
-        g_list([g_list([g_z(v) for v in law]) for law in c["laws"]]), g_bool(c["engine"] != "euler"))
+        g_list([g_list([g_z(v) for v in law]) for law in c["laws"]]), g_bool(c["engine"] != "euler"), si.g_usys(o.get("units", c["units"])))
     samples = o.get("samples", [[1e300]])
+    if len(samples) > 14:      # first, last and an evenly spread selection (the Python oracle sees all of them)
+        step = (len(samples) - 1) / 13.0
+        samples = [samples[int(round(k * step))] for k in range(14)]
     go = g_list([g_list([g_float(v) for v in row]) for row in samples])
     return "(%s)" % gc, go
 
@@ -46,8 +50,16 @@ def oracle(it):
     desc = c["desc"]
     n, ns = sysgen.ncells(desc), len(desc["species"])
     for law in c["laws"]:
-        tots = [sum(Fr(law[s]) * sum(Fr(x[s * n + i]) for i in range(n)) for s in range(ns)) for x in o["samples"]]
-        mags = [sum(abs(Fr(law[s])) * sum(abs(Fr(x[s * n + i])) for i in range(n)) for s in range(ns)) for x in o["samples"]]
+        f = Fr(1)
+        if c["engine"] != "euler":    # stochastic engines: totals in whole molecules
+            f = si.SI_AMOUNT[o["units"][2]]
+        samples = [[Fr(v) * f for v in x] for x in o["samples"]]
+        if c["engine"] != "euler":
+            if any(abs(v - round(v)) > Fr(1, 10**6) * (1 + abs(v)) for x in samples for v in x):
+                return False, name + " [a stochastic engine reported a fractional number of molecules]"
+            samples = [[Fr(round(v)) for v in x] for x in samples]
+        tots = [sum(Fr(law[s]) * sum(x[s * n + i] for i in range(n)) for s in range(ns)) for x in samples]
+        mags = [sum(abs(Fr(law[s])) * sum(abs(x[s * n + i]) for i in range(n)) for s in range(ns)) for x in samples]
         for t, m in zip(tots, mags):
             if c["engine"] != "euler":
                 if t != tots[0]:
@@ -58,13 +70,28 @@ def oracle(it):
 
 
 def gen_cases(rng, tier):
-    n = 150 if tier == "quick" else 3000
+    n = 1500 if tier == "quick" else 30000
     cases = []
     while len(cases) < n:
         c = trajgen.make_sim_case(rng, max_cells=6 if tier == "quick" else 12, max_steps=200 if tier == "quick" else 3000)
         # diffusion-only systems every fourth case
         if len(cases) % 4 == 3:
             c["desc"]["reactions"] = []
+        elif len(cases) % 4 in (1, 2):
+            # reactions with a non-trivial conservation law: isomerisation, association, dimerisation
+            labels = [s["label"] for s in c["desc"]["species"]]
+            for r in c["desc"]["reactions"]:
+                a, b, d = (rng.choice(labels) for _ in range(3))
+                shape = rng.choice(["iso", "assoc", "dimer"])
+                if shape == "iso" or len(labels) < 2:
+                    r["sub"], r["prod"] = {a: 1}, {b: 1}
+                elif shape == "assoc":
+                    r["sub"], r["prod"] = ({a: 2} if a == b else {a: 1, b: 1}), {d: 1}
+                else:
+                    r["sub"], r["prod"] = {a: 2}, {b: 1}
+                for key, order in (("kf", sum(r["sub"].values())), ("kr", sum(r["prod"].values()))):
+                    r[key] = {"scalar": {"v": rng.choice([0.0, 0.125, 0.5, 1.0]), "sys": ["µm", "s", "molecule"]}}
+        trajgen.tune_time_step(c)
         c["laws"] = usable_laws(c)
         if not c["laws"]:
             continue
@@ -75,15 +102,24 @@ def gen_cases(rng, tier):
 def build_items(cases, run=None):
     engine_build.build(False)
     items = []
-    for c in cases:
-        o = observe(c)
-        try:
-            gc, go = emit(c, o)
-        except ValueError:
+    obs = child.map_children("c02", "observe", cases, timeout=6)
+    for c, o in zip(cases, obs):
+        if "timeout" in o or "crash" in o:
+            # termination and crash-freedom are C10 / C11; here the trajectory is simply not available
+            if run:
+                run.count("discarded_timeout" if "timeout" in o else "discarded_crash")
+            continue
+        if not all(math.isfinite(v) for x in o.get("samples", []) for v in x):
             if run:
                 run.count("discarded_nonfinite")
             continue
-        items.append({"case": c, "obs": o, "gcase": gc, "gobs": go})
+        items.append({"case": c, "obs": o})
+    return items
+
+
+def emit_items(items):
+    for it in items:
+        it["gcase"], it["gobs"] = emit(it["case"], it["obs"])
     return items
 
 
@@ -92,6 +128,13 @@ def check(run):
     sysgen.POOLS["space"] = ["cm", "mm", "dmm", "cmm", "µm", "nm", "dm"]
     cases = gen_cases(rng, run.tier)
     items = build_items(cases, run)
+    # every trajectory is screened by the model-independent oracle (cheap); the Coq verdict is computed for a
+    # fixed-size prefix and for every trajectory the screen objects to
+    ncoq = 150 if run.tier == "quick" else 3000
+    flagged = [it for it in items[ncoq:] if oracle(it)[0] is False][:20]
+    run.extra["screened_by_property_oracle"] = len(items)
+    run.extra["screen_objections"] = len(flagged)
+    items = emit_items(items[:ncoq] + flagged)
     events = 0
     for it in items:
         c = it["case"]
@@ -113,5 +156,5 @@ def check(run):
 
 def replay(run, payload):
     sysgen.POOLS["space"] = ["cm", "mm", "dmm", "cmm", "µm", "nm", "dm"]
-    items = build_items([payload["case"]])
+    items = emit_items(build_items([payload["case"]]))
     core.decide(run, items, IMPORTS, "accept_C02", oracle)
